@@ -285,8 +285,10 @@ class PoorSession:
         Be sure, that data can't be changed:
         https://stackoverflow.com/a/5285982/8379994
         """
+        self.__expires = -1     # write method will not restore original values
         self.cookie[self.__sid]['expires'] = -1
         if self.__max_age is not None:
+            self.__max_age = -1
             self.cookie[self.__sid]['Max-Age'] = -1
         self.cookie[self.__sid]['HttpOnly'] = True
         if self.__secure:
